@@ -1175,3 +1175,142 @@ def c09(ctx):
                        "original graph's truth table, or one program compiled under 14 configurations ({prune} x {multiplier thresholds 0, 8, 16, "
                        "21, 64} x {Yao, GMW}) and compared on every input (<= 12/16 input bits) or 64 vectors; non-trivial = >= 2 gates / >= 3 statements")
     ctx.check_drift()
+
+
+# ---------------------------------------------------------------------- C12
+FOLD_CFG = """SPECIFICATION FSpec
+CONSTANTS
+  Widths = {8}
+  MaxStmts = 1
+  Kinds = {}
+  FoldWidths = %s
+  FoldOps = {"+", "-", "*", "/", "%%", "&", "|", "^", "&^", "<<", ">>", "<", "<=", ">", ">=", "==", "!=", "neg"}
+  Consumers = {"ret", "add1", "div3", "lt2", "shl1"}
+CONSTRAINT FEmit
+CHECK_DEADLOCK FALSE
+"""
+
+
+def c12_space(cat):
+    """the case space spanned by FoldCat.tla's catalogue, in a fixed order"""
+    cmp_ops = {"<", "<=", ">", ">=", "==", "!="}
+    cases = []
+    for wd in sorted(cat["widths"], key=lambda d: d["w"]):
+        w = wd["w"]
+        pats = {p["n"]: p["v"] for p in wd["pats"]}
+        counts = sorted(wd["counts"], key=lambda c: c["n"])
+        for signed in (0, 1):
+            for op in cat["ops"]:
+                ks = ["ret"] if op in cmp_ops else cat["ks"]
+                for k in ks:
+                    for xn in cat["xpats"]:
+                        if op in ("<<", ">>"):
+                            for c in counts:
+                                cases.append({"op": op, "k": k, "w": w, "signed": signed, "bool": 0, "xn": xn, "yn": c["n"],
+                                              "x": pats[xn], "y": pats["zero"], "cnt": c["v"]})
+                        elif op == "neg":
+                            cases.append({"op": op, "k": k, "w": w, "signed": signed, "bool": 0, "xn": xn, "yn": "zero",
+                                          "x": pats[xn], "y": pats["zero"], "cnt": 0})
+                        else:
+                            for yn in cat["ypats"]:
+                                if op in ("/", "%") and not any(pats[yn]):
+                                    continue
+                                cases.append({"op": op, "k": k, "w": w, "signed": signed, "bool": 0, "xn": xn, "yn": yn,
+                                              "x": pats[xn], "y": pats[yn], "cnt": 0})
+    for op in cat["boolops"]:
+        for x in (0, 1):
+            for y in ((0,) if op == "not" else (0, 1)):
+                cases.append({"op": op, "k": "ret", "w": 1, "signed": 0, "bool": 1, "xn": "true" if x else "false",
+                              "yn": "true" if y else "false", "x": [x], "y": [y], "cnt": 0})
+    for i, c in enumerate(cases):
+        c["i"] = i
+    return cases
+
+
+def c12_run(ctx, cases, par=14):
+    """harness + FoldTrace.tla over the cases, in parallel chunks; returns (results per class, events, verdicts)"""
+    from concurrent.futures import ThreadPoolExecutor
+    n = max(1, min(par, (len(cases) + 499) // 500))
+    chunks = [cases[j::n] for j in range(n)]
+
+    def one(j):
+        d = os.path.join(ctx.tmp, "c12-%d" % j)
+        os.makedirs(d, exist_ok=True)
+        cf, rf, tf = (os.path.join(d, f) for f in ("cases.ndjson", "res.ndjson", "fold_trace.ndjson"))
+        write_ndjson(cf, chunks[j])
+        ctx.run_vh(["c12", "cases", cf, rf, tf], timeout=3400)
+        events = read_ndjson(tf)
+        verdicts = {}
+        # TLC decides every recorded case; pieces of 4000 events keep the deserialised trace small
+        for b in range(0, len(events), 4000):
+            piece = events[b:b + 4000]
+            pd = os.path.join(d, "p%d" % b)
+            os.makedirs(pd, exist_ok=True)
+            pf = os.path.join(pd, "fold_trace.ndjson")
+            write_ndjson(pf, [{k: e[k] for k in ("i", "op", "k", "w", "signed", "bool", "x", "y", "folded", "runtime")} for e in piece])
+            r = ctx.tlc("FoldTrace", "FoldTrace.cfg", mode="trace", name="foldtrace-%d-%d" % (j, b), files=[pf], timeout=3000, heap="3g")
+            if r["status"] != "ok":
+                raise Broken("FoldTrace failed: %s\n%s" % (r["status"], r["out"][-3000:]))
+            for v in r["cases"]:
+                verdicts[v["i"]] = v
+            if len([1 for e in piece if e["i"] in verdicts]) != len(piece):
+                raise Broken("FoldTrace decided %d of %d recorded cases" % (len(r["cases"]), len(piece)))
+        return rf, events, verdicts, sum(1 for _ in events)
+
+    with ThreadPoolExecutor(max_workers=n) as ex:
+        return list(ex.map(one, range(n)))
+
+
+@prop("C12")
+def c12(ctx):
+    thorough = ctx.tier == "thorough"
+    ctx.build()
+    ctx.assumptions += ["the case space is the fixed product FoldCat.tla spans (13 widths x signedness x 18 operators x 6 consumers x 16 x 8 operand "
+                        "patterns / shift counts, plus the boolean operators) and every operand pair of the types of <= 4 bits; the quick tier "
+                        "draws a seeded sample of it, the thorough tier takes all of it",
+                        "division, modulo and shifts have no typed reference value for wide operands here (the circuits are checked against "
+                        "Arith.tla under C07); folded and run-time results are still compared",
+                        "inputs on which the unchanged compiler folds differently from its circuits are listed one by one in known/C12.inputs.json; "
+                        "a discrepancy on any other input is a violation"]
+    # catalogue and case space from the specification
+    g = ctx.tlc("FoldCatGen", "FoldCat_gen.cfg", mode="gen1", name="foldcat", timeout=600)
+    if g["status"] != "ok" or len(g["cases"]) != 1:
+        raise Broken("FoldCat failed: %s\n%s" % (g["status"], g["out"][-2000:]))
+    space = c12_space(g["cases"][0])
+    ctx.cov["case_space"] = len(space)
+    if thorough:
+        cases = space
+    else:
+        import random
+        rnd = random.Random(ctx.seed)
+        nb = [c for c in space if c["bool"]]
+        cases = rnd.sample([c for c in space if not c["bool"]], 7000) + nb
+    n_ev = 0
+    for rf, events, verdicts, n in c12_run(ctx, cases):
+        ctx.absorb(rf)
+        n_ev += n
+        for e in events:
+            v = verdicts[e["i"]]
+            if not v["same"]:
+                ctx.violation("fold:" + e["key"], "%s: folded constant %s, run-time circuit %s" % (e["what"], e["fv"], e["rv"]))
+            elif v["typed"] == "bad":
+                ctx.drift.append("%s: folded and run-time agree on %s, which is not the typed value of FoldCat.tla" % (e["what"], e["rv"]))
+        ctx.sample({"case": events[0]["key"], "folded": events[0]["fv"], "runtime": events[0]["rv"]} if events else None)
+    ctx.cov["traces_validated_against_impl"] += n_ev
+    ctx.cov["cases_decided_by_FoldTrace"] = n_ev
+    # narrow types: every operand pair, with the expected value from Mpcl.tla's typed semantics
+    fg = ctx.tlc("Fold", "Fold_gen.cfg", mode="gen", name="fold-gen", timeout=3000, cfg_text=FOLD_CFG % ("{1, 2, 3, 4}" if thorough else "{1, 3, 4}"))
+    if fg["status"] != "ok" or not fg["cases"]:
+        raise Broken("Fold generator failed: %s\n%s" % (fg["status"], fg["out"][-2000:]))
+    fcases = fg["cases"] if thorough else sample_cases(fg["cases"], 150, ctx.seed)
+    ff = os.path.join(ctx.tmp, "c12small.ndjson")
+    write_ndjson(ff, sorted(fcases, key=lambda c: json.dumps(c, sort_keys=True)))
+    fr = os.path.join(ctx.tmp, "c12smallres.ndjson")
+    ctx.run_vh(["c12", "replay", ff, fr], timeout=3400)
+    ctx.absorb(fr)
+    ctx.cov["rule"] = ("one evaluation = one (operator, type, operand pair, consumer): the constant variant (typed package constants; CompileSSA "
+                       "confirms no arithmetic instruction is left) and the run-time variant are compiled and evaluated; FoldTrace.tla decides "
+                       "equality and the typed reference value on limbs; classes: folded / rejected (the compiler refuses the constant "
+                       "declaration) / not-folded / crash")
+    if ctx.drift:
+        raise Broken("MODEL-DRIFT: run-time circuits disagree with the typed semantics although folding agrees with them:\n  " + "\n  ".join(ctx.drift[:10]))
